@@ -325,6 +325,7 @@ func c07Exec(j c07Job) (res c07Res) {
 		all += fmt.Sprint(i)
 	}
 	follow = append(follow, "check|"+all+"|")
+	learned := len(follow) // the follow-up up to here only reads (polls, state check); what follows attacks
 	// replay the interrupted request verbatim
 	switch f[0] {
 	case "swap":
@@ -347,7 +348,42 @@ func c07Exec(j c07Job) (res c07Res) {
 		follow = append(follow, fmt.Sprintf("pollm|%d|", jx))
 	}
 	follow = append(follow, "check|"+all+"|", "restart")
-	for _, op := range follow {
+	meltInputs := func(mi int) []int {
+		if f[0] == "melt" && atoiList(f[1])[0] == mi {
+			return atoiList(f[2])
+		}
+		var ins []int
+		for _, op := range sc.Prep {
+			pf := strings.Split(op, "|")
+			if pf[0] == "melt" && atoiList(pf[1])[0] == mi {
+				ins = atoiList(pf[2])
+			}
+		}
+		return ins
+	}
+	for fi, op := range follow {
+		if fi == learned {
+			// safety: "no secret is spendable that was already ... paid for" — once the mint's own records say a melt quote is
+			// PAID, the inputs that paid for it must be SPENT (judged before the re-spend attempts below consume them)
+			t, err := w.ReadTables()
+			if err != nil {
+				res.Err = err.Error()
+				return res
+			}
+			for mi, m := range w.Melts {
+				if t.MeltQ[m.Q.Id][0] != "PAID" {
+					continue
+				}
+				for _, i := range meltInputs(mi) {
+					_, spent := t.Spent[w.Proofs[i].Y]
+					_, locked := t.Pending[w.Proofs[i].Y]
+					if !spent && !locked {
+						res.V = append(res.V, rt.Violation{Property: "C07,C05", Key: where + "/safety/paid-quote-inputs-spendable", What: fmt.Sprintf("[%s of %s, fault before %s] after restart and polls the mint reports melt quote mq%d PAID but its input p%d is neither SPENT nor locked (it can pay again)", j.Mode, sc.Op, res.Fault, mi, i)})
+						break
+					}
+				}
+			}
+		}
 		var err error
 		if op == "restart" {
 			if err = safeRestart(w, sc.Fee); err == nil {
@@ -388,18 +424,7 @@ func c07Exec(j c07Job) (res c07Res) {
 		}
 		if paid {
 			// inputs of that melt: the tracked proofs that are spent and were given to it (the op's inputs for the interrupted one)
-			var ins []int
-			if f[0] == "melt" && atoiList(f[1])[0] == mi {
-				ins = atoiList(f[2])
-			} else {
-				for _, op := range sc.Prep {
-					pf := strings.Split(op, "|")
-					if pf[0] == "melt" && atoiList(pf[1])[0] == mi {
-						ins = atoiList(pf[2])
-					}
-				}
-			}
-			for _, i := range ins {
+			for _, i := range meltInputs(mi) {
 				burnt += int64(w.Proofs[i].P.Amount)
 			}
 		}
